@@ -201,6 +201,8 @@ def mcmc_case(draw, tier, holes=False, maxN=None):
     c = {"net": net, "target": tgt, "L": L, "search": search, "rng": r}
     if draw(st.integers(0, 4)) == 4:
         c["earlier_rewire"] = True
+    elif draw(st.integers(0, 4)) == 4:
+        c["limits_via_setter"] = True
     if draw(st.integers(0, 3)) == 3:
         # the rewiring object is first constructed for another network on the same vertex labels (other joint
         # degrees), then given this network through its public setter
@@ -301,6 +303,14 @@ def run_rewire(case):
                     p0[TN.NETWORK] = N0
                     m = MarkovChainMonteCarloRewiring(p0)
                     m.network = N
+                elif case.get("limits_via_setter") and case["L"] is not None and case["search"] is not None:
+                    # constructed with generous limits, the limits of the case are then set through the properties
+                    p1 = dict(params)
+                    p1[TN.CONVERGENCE_LIMIT] = case["L"] + 50
+                    p1[TN.SEARCH_LIMIT] = case["search"] + 40
+                    m = MarkovChainMonteCarloRewiring(p1)
+                    m.convergence_limit = case["L"]
+                    m.search_limit = case["search"]
                 else:
                     m = MarkovChainMonteCarloRewiring(params)
                 R.where = "rewire"
